@@ -150,7 +150,7 @@ impl Check for C16 {
         let nops = 3 + r.below(12);
         let mut ops = vec![];
         for _ in 0..nops {
-            let op = match r.below(26) {
+            let op = match r.below(27) {
                 0..=5 => Op::Step(1 + r.below(12) as u32),
                 6 | 7 => Op::RunLimit(r.below(40)),
                 8 => Op::Run,
@@ -179,6 +179,7 @@ impl Check for C16 {
                 22 => Op::HostWrite { addr: addr_biased(r), data: r.u16(), privileged: r.bool(), track: r.bool() },
                 23 => Op::HostRead { addr: addr_biased(r), privileged: r.bool(), effects: r.bool(), track: r.bool() },
                 24 => Op::TimerEnable(r.below(4) as usize, r.bool()),
+                25 => Op::CallSub(addr_biased(r)),
                 _ => Op::QueryAll,
             };
             ops.push(op);
@@ -317,6 +318,7 @@ pub fn op_name(op: &Op) -> &'static str {
         Op::HostRead { .. } => "read_mem",
         Op::HostWrite { .. } => "write_mem",
         Op::QueryAll => "query",
+        Op::CallSub(_) => "call_subroutine",
         Op::SubDef(..) => "set_subroutine_def",
         Op::Host(_) => "host",
         _ => "cfg",
